@@ -61,6 +61,17 @@ def gen_source(rng):
             out += ["SET(%s, 0x%x)" % (a, rng.randrange(65536)), "SET(R14, 0x%x)" % rng.randrange(65536),
                     "SET(%s, alias%d)" % (b, k), "%s(%s, %s)" % (op, a, b), "LABEL(alias%d)" % k,
                     "MOVE(R6, R12)", "MOVE(R7, R13)", "MOVE(R8, R14)", "MOVE(R9, R5)"]
+        if rng.random() < 0.3:
+            # instruction words written as OPCODE, the same word more than once (seed C06i: a cache in disassemble
+            # handed every occurrence of a word the same operation object, and encoding it consumed its operands)
+            for _ in range(rng.choice([1, 2])):
+                rd, ra, rb = rng.randrange(1, 11), rng.randrange(11), rng.randrange(11)
+                w = rng.choice([0xA000, 0xB000, 0x8000, 0x9000, 0xD000]) | rd << 8 | ra << 4 | rb
+                if rng.random() < 0.4:
+                    w = rng.choice([0xE000, 0xF000]) | rd << 8 | rng.randrange(256)
+                for _ in range(rng.choice([2, 2, 3])):
+                    first = max([i + 1 for i, l in enumerate(out) if l.split("(")[0] in ("DLABEL", "INTEGER", "LP_STRING", "DSKIP", "TIGER_STRING")] or [0])
+                    out.insert(rng.randrange(first, len(out) + 1), "OPCODE(0x%04x)" % w)
         if rng.random() < 0.7:
             out.append("HALT()")
         text = "\n".join(out) + "\n"
